@@ -96,6 +96,13 @@ class FieldArrayModel(FieldCompositeModel):
         self.sum_expr = None
         self.sum_expr_btor = None
         
+        if self.is_rand_sz and self.is_scalar:
+            # Elements were pre-allocated up to the largest admissible size.
+            # Only the first 'size' of them are part of the list
+            sz = int(self.size.get_val())
+            if len(self.field_l) > sz:
+                del self.field_l[sz:]
+        
     def add_field(self) -> FieldScalarModel:
         fid = len(self.field_l)
         if self.is_enum:
